@@ -119,6 +119,23 @@ func (n *node[T]) addMethods(h T, pattern string, ms []types.Middleware[T], meth
 	return nil
 }
 
+// 是否为计入 Tree.methods 的请求方法，自动生成的 OPTIONS、HEAD 和 405 不计入。
+func isCountedMethod(m string) bool {
+	return m != methodNotAllowed && m != http.MethodOptions && m != http.MethodHead
+}
+
+// 从 Tree.methods 中减去当前节点及其子节点上的请求方法
+func (n *node[T]) releaseMethods() {
+	for m := range n.handlers {
+		if isCountedMethod(m) {
+			n.root.methods[m]--
+		}
+	}
+	for _, c := range n.children {
+		c.releaseMethods()
+	}
+}
+
 // num 表示为该请求方法加上的计数
 func (tree *Tree[T]) buildMethods(num int, methods ...string) {
 	for _, m := range methods {
